@@ -4,6 +4,7 @@ import (
 	"encoding/json"
 	"fmt"
 	"go/ast"
+	"go/constant"
 	"go/token"
 	"go/types"
 	"os"
@@ -149,12 +150,13 @@ func c01Roots(p *core.Prog) (roots []*ssa.Function, desc map[*ssa.Function]strin
 func c01(c *Ctx) {
 	p, r := c.P, c.R
 	r.Technique = "panic-site audit over the peer-reachable call graph: the Go compiler's own prove pass (-d=ssa/check_bce) lists every bounds check it cannot eliminate, each is mapped to its syntax node and function and must be covered by a hand-confirmed triage entry; plus type-assertion/explicit-panic inventory, definite-nil-receiver check, and a blocking-channel-operation rule for the synchronous part of talk handlers"
-	r.Explanation = "Decides, for shisui's own code reachable from a peer-input entry point (registered talk handlers, the processors of TALKRESP payloads, every ValidateContent and every ContentStorage Get/Put implementation, and everything they call through static calls, closures and module-internal interface dispatch): (R1) every index / slice / slice-to-array conversion whose bounds check the compiler's prove pass could not eliminate is listed in the triage table with the invariant that protects it - a new unproven site (e.g. because a length check in front of it was removed or weakened, which turns a compiler-proved site into a reported one) is a violation naming function and expression; (R3) every type assertion without comma-ok and every explicit panic / Must* call in that set is listed likewise; (R4) no method is called on, and no field read through, a pointer variable that is definitely nil (declared and never assigned); (R5) a talk handler performs no channel send or receive synchronously outside a select with a default or cancellation case; (R6) handler dispatch switches on message codes fall through to a nil reply / error for unknown codes. Not decided: absence of panics as such (sites in the table are trusted to their written reason), panics inside dependencies (rlp, ztyp, zrnt, fastssz, pebble, utp-go, discv5), memory exhaustion, goroutine leaks, termination in general."
+	r.Explanation = "Decides, for shisui's own code reachable from a peer-input entry point (registered talk handlers, the processors of TALKRESP payloads, every ValidateContent and every ContentStorage Get/Put implementation, and everything they call through static calls, closures and module-internal interface dispatch): (R1) every index / slice / slice-to-array conversion whose bounds check the compiler's prove pass could not eliminate is listed in the triage table with the invariant that protects it - a new unproven site (e.g. because a length check in front of it was removed or weakened, which turns a compiler-proved site into a reported one) is a violation naming function and expression; (R3) every type assertion without comma-ok and every explicit panic / Must* call in that set is listed likewise; (R4) no method is called on, and no field read through, a pointer variable that is definitely nil (declared and never assigned); (R5) a talk handler performs no channel send or receive synchronously outside a select with a default or cancellation case; (R6) handler dispatch switches on message codes fall through to a nil reply / error for unknown codes; (R8) a pointer field that the code itself sets to nil to mean 'gone' is dereferenced on peer-driven code (handlers and the routing-table loop) only after a non-nil test of that field on every path. Not decided: absence of panics as such (sites in the table are trusted to their written reason), panics inside dependencies (rlp, ztyp, zrnt, fastssz, pebble, utp-go, discv5), memory exhaustion, goroutine leaks, termination in general."
 	r.Assumptions = []string{"the Go compiler's prove pass is sound (a bounds check it removes cannot fail)", "triage reasons were confirmed by reading the code at the audited commit; the tables are keyed by function+expression, never by line"}
 	r.Floor("R1.bounds", 100)
 	r.Floor("R5.blocking-ops", 2)
 	r.Floor("roots", 10)
 	r.Floor("R7.tagged-union", 8)
+	r.Floor("R8.nil-sentinel", 3)
 
 	roots, desc := c01Roots(p)
 	for _, f := range roots {
@@ -274,7 +276,7 @@ func c01(c *Ctx) {
 			r.Pass("R1.bounds", k, pos, "discharged locally: "+why)
 			continue
 		}
-		if why := sszFixedOperand(s); why != "" && got[k] == 1 {
+		if why := sszFixedOperand(p, s); why != "" && got[k] == 1 {
 			r.Pass("R1.bounds", k, pos, "discharged by provenance: "+why)
 			continue
 		}
@@ -340,6 +342,15 @@ func c01other(c *Ctx, roots []*ssa.Function, reach map[*ssa.Function]bool, tab *
 					count[k]++
 					posOf[k] = p.Pos(core.InstrPos(x))
 				case *ssa.Panic:
+					// go/ssa's own stub after a select without default: not a panic of the program
+					if mi, isMi := x.X.(*ssa.MakeInterface); isMi {
+						if cs, isC := mi.X.(*ssa.Const); isC && cs.Value != nil && cs.Value.Kind() == constant.String && constant.StringVal(cs.Value) == "blocking select matched no case" && !x.Pos().IsValid() {
+							k := name + " select-stub"
+							proved[k] = "go/ssa's 'blocking select matched no case' stub after a select without default (unreachable)"
+							posOf[k] = p.Pos(core.InstrPos(x))
+							continue
+						}
+					}
 					k := name + " Panic explicit"
 					count[k]++
 					posOf[k] = p.Pos(core.InstrPos(x))
@@ -544,6 +555,7 @@ func c01other(c *Ctx, roots []*ssa.Function, reach map[*ssa.Function]bool, tab *
 	// ---- R7: tag/payload agreement behind the triaged assertions on OfferRequest.Request
 	c01TaggedUnion(c, "OfferRequest", "Kind", "Request")
 	c01LockPairing(c, reach)
+	c01NilSentinel(c, reach)
 }
 
 // locallyGuarded re-derives, for a site the compiler could not prove, a guard the checker can
@@ -568,9 +580,18 @@ func locallyGuarded(s core.BoundsSite) string {
 				if bound == nil {
 					return ""
 				}
+				if why := chunkLoopGuarded(s.Fn, x); why != "" {
+					return why
+				}
+				if why := intervalGuarded(x); why != "" {
+					return why
+				}
 				if _, isC := core.ConstInt(bound); isC {
 					return ""
 				}
+				// chunking a buffer whose length was checked to be a multiple of k:
+				//   for i := 0; i < len(x); i += k { x[i:i+k] }        (index form)
+				//   for len(r) > 0 { r[:k]; r = r[k:] } with r starting as x (shrinking form)
 				// x[:i] / x[i+1:] with i := slices.Index*(x, ...) and i >= 0 on every path: 0 <= i < len(x)
 				{
 					idxOf := func(v ssa.Value) *ssa.Call {
@@ -799,7 +820,7 @@ func atomicValueAssertProved(p *core.Prog, x *ssa.TypeAssert) string {
 // length) and the slice is, by data flow inside the function, a field (or an element of a field)
 // that the type's SSZ tags declare as a fixed-size byte vector at least that long. The size is
 // enforced by the type's decoder (C14.R1 checks decoder against tags).
-func sszFixedOperand(s core.BoundsSite) string {
+func sszFixedOperand(p *core.Prog, s core.BoundsSite) string {
 	if s.Fn == nil || s.Kind != "IsSliceInBounds" {
 		return ""
 	}
@@ -880,7 +901,283 @@ func sszFixedOperand(s core.BoundsSite) string {
 			if why != "" {
 				return why
 			}
+			// a value that is a hash by construction (32 bytes), possibly handed in as a parameter
+			// by callers that all pass such a value
+			if need <= 32 {
+				if w2 := hashSizedValue(p, sp.X, 0); w2 != "" {
+					return fmt.Sprintf("operand is %s, converted to [%d]byte", w2, need)
+				}
+			}
 		}
 	}
 	return ""
+}
+
+// hashSizedValue: v is, by data flow, the 32-byte output of a hash (common.Hash.Bytes(),
+// crypto.Keccak256, sha256.Sum256(..)[:], Header.Hash().Bytes()); a parameter counts when every
+// static call site of its function in the module passes such a value and the function is not
+// used as a value.
+func hashSizedValue(p *core.Prog, v ssa.Value, depth int) string {
+	if depth > 2 {
+		return ""
+	}
+	why := ""
+	core.Derives(v, func(x ssa.Value) bool {
+		switch y := x.(type) {
+		case *ssa.Call:
+			id := core.CalleeID(y)
+			if os.Getenv("VERIF_DEBUG") != "" {
+				fmt.Fprintf(os.Stderr, "debug hashSized call: %s\n", id)
+			}
+			switch {
+			case strings.HasSuffix(id, "go-ethereum/common.(Hash).Bytes"), strings.HasSuffix(id, "go-ethereum/crypto.Keccak256"), id == "crypto/sha256.Sum256":
+				why = "the 32-byte result of " + shortID(id)
+				return true
+			}
+		case *ssa.Parameter:
+			fn := y.Parent()
+			if fn == nil || !core.InModule(fn) {
+				return false
+			}
+			idx := -1
+			for i, pa := range fn.Params {
+				if pa == y {
+					idx = i
+				}
+			}
+			callers := p.CallersOfFn(fn)
+			if os.Getenv("VERIF_DEBUG") != "" {
+				fmt.Fprintf(os.Stderr, "debug hashSized: param %s of %s idx=%d callers=%d\n", y.Name(), fn, idx, len(callers))
+			}
+			n := 0
+			for _, sites := range callers {
+				for _, cs := range sites {
+					n++
+					if idx < 0 || idx >= len(cs.Common().Args) || hashSizedValue(p, cs.Common().Args[idx], depth+1) == "" {
+						return false
+					}
+				}
+			}
+			if n == 0 || functionUsedAsValue(p, fn) {
+				return false
+			}
+			why = fmt.Sprintf("parameter %s, to which all %d call site(s) pass a 32-byte hash", y.Name(), n)
+			return true
+		}
+		return false
+	}, core.DeriveOpts{})
+	return why
+}
+
+// functionUsedAsValue: fn is referenced other than as the callee of a static call (stored,
+// passed, bound as a method value): its parameters can then receive values we do not see.
+func functionUsedAsValue(p *core.Prog, fn *ssa.Function) bool {
+	if refs := fn.Referrers(); refs != nil {
+		for _, r := range *refs {
+			ci, ok := r.(ssa.CallInstruction)
+			if !ok || ci.Common().Value != ssa.Value(fn) {
+				return true
+			}
+		}
+	}
+	// exported methods can be called through interfaces from outside the functions we see
+	if fn.Signature.Recv() != nil && fn.Object() != nil && fn.Object().Exported() {
+		return true
+	}
+	return false
+}
+
+// chunkLoopGuarded discharges the two usual ways of cutting a buffer into k-byte chunks after
+// `len(x) % k == 0` was established on every path to the slice.
+func chunkLoopGuarded(fn *ssa.Function, sl *ssa.Slice) string {
+	multipleOf := func(x ssa.Value, k int64) bool {
+		g := core.AnyFact(func(f core.Fact) bool {
+			return core.CmpFact(f, func(op token.Token, a, c ssa.Value) bool {
+				z, isZ := core.ConstInt(c)
+				bo, ok := core.Unwrap(a).(*ssa.BinOp)
+				if op != token.EQL || !isZ || z != 0 || !ok || bo.Op != token.REM {
+					return false
+				}
+				kk, isK := core.ConstInt(bo.Y)
+				return isK && kk == k && core.IsLenOf(bo.X, func(v ssa.Value) bool { return v == x })
+			})
+		})
+		return core.InstrGuarded(sl, g, nil) == nil
+	}
+	// index form
+	if sl.Low != nil && sl.High != nil {
+		if bo, ok := sl.High.(*ssa.BinOp); ok && bo.Op == token.ADD && bo.X == sl.Low {
+			if k, isK := core.ConstInt(bo.Y); isK && k > 0 {
+				if ph, ok := sl.Low.(*ssa.Phi); ok {
+					start0, step := false, false
+					for _, e := range ph.Edges {
+						if z, isZ := core.ConstInt(e); isZ {
+							start0 = z == 0
+							continue
+						}
+						if b2, ok := e.(*ssa.BinOp); ok && b2.Op == token.ADD && b2.X == ssa.Value(ph) {
+							if kk, isKK := core.ConstInt(b2.Y); isKK && kk == k {
+								step = true
+							}
+						}
+					}
+					below := core.AnyFact(func(f core.Fact) bool {
+						return core.CmpFact(f, func(op token.Token, a, c ssa.Value) bool {
+							return op == token.LSS && a == ssa.Value(ph) && core.IsLenOf(c, func(v ssa.Value) bool { return v == sl.X })
+						})
+					})
+					if start0 && step && core.InstrGuarded(sl, below, nil) == nil && multipleOf(sl.X, k) {
+						return fmt.Sprintf("x[i:i+%d] with i = 0, %d, 2*%d, ... < len(x) and len(x) %% %d == 0 on every path", k, k, k, k)
+					}
+				}
+			}
+		}
+	}
+	// shrinking form: the sliced value is a loop variable r = phi(x, r[k:])
+	if ph, ok := sl.X.(*ssa.Phi); ok {
+		var x ssa.Value
+		var k int64 = -1
+		okShape := true
+		for _, e := range ph.Edges {
+			if s2, ok := e.(*ssa.Slice); ok && s2.X == ssa.Value(ph) && s2.High == nil && s2.Low != nil {
+				if kk, isK := core.ConstInt(s2.Low); isK && kk > 0 && (k < 0 || k == kk) {
+					k = kk
+					continue
+				}
+				okShape = false
+				continue
+			}
+			if x != nil && x != e {
+				okShape = false
+			}
+			x = e
+		}
+		if okShape && x != nil && k > 0 {
+			isHead := sl.Low == nil && sl.High != nil
+			isTail := sl.High == nil && sl.Low != nil
+			var c int64 = -1
+			if isHead {
+				c, _ = core.ConstInt(sl.High)
+			} else if isTail {
+				c, _ = core.ConstInt(sl.Low)
+			}
+			nonEmpty := core.AnyFact(func(f core.Fact) bool {
+				return core.CmpFact(f, func(op token.Token, a, cst ssa.Value) bool {
+					z, isZ := core.ConstInt(cst)
+					return isZ && core.IsLenOf(a, func(v ssa.Value) bool { return v == ssa.Value(ph) }) && ((op == token.GTR && z == 0) || (op == token.NEQ && z == 0) || (op == token.GEQ && z == k))
+				})
+			})
+			if c == k && core.InstrGuarded(sl, nonEmpty, nil) == nil && multipleOf(x, k) {
+				return fmt.Sprintf("r[:%d] / r[%d:] with r shrinking by %d from x while len(r) > 0, and len(x) %% %d == 0 on every path", k, k, k, k)
+			}
+		}
+	}
+	return ""
+}
+
+// intervalGuarded discharges a slice of a fixed-size array whose bounds are linear in one loop
+// counter with a constant range: a[c0+c1*w : d0+d1*w] for w in [lo, hi] needs
+// 0 <= low <= high <= len(a) at both ends of the range (linear => at every w).
+func intervalGuarded(sl *ssa.Slice) string {
+	L := int64(-1)
+	t := sl.X.Type()
+	if pt, ok := t.Underlying().(*types.Pointer); ok {
+		t = pt.Elem()
+	}
+	if at, ok := t.Underlying().(*types.Array); ok {
+		L = at.Len()
+	}
+	if L < 0 {
+		return ""
+	}
+	var counter *ssa.Phi
+	src := func(v ssa.Value) string {
+		if ph, ok := v.(*ssa.Phi); ok && isInductionVar(ph) {
+			if counter == nil || counter == ph {
+				counter = ph
+				return "w"
+			}
+		}
+		return ""
+	}
+	eval := func(v ssa.Value, dflt int64) (core.Lin, bool) {
+		if v == nil {
+			return core.Lin{C0: dflt, Terms: map[string]int64{}}, true
+		}
+		l := core.LinEval(v, src)
+		if l.Opaque() || !l.OnlyAtoms("w") {
+			return l, false
+		}
+		return l, true
+	}
+	lo, ok1 := eval(sl.Low, 0)
+	hi, ok2 := eval(sl.High, L)
+	if !ok1 || !ok2 || counter == nil {
+		return ""
+	}
+	// range of the counter: start constant, step +1 (or -1), guard against a constant
+	var start int64
+	okStart := false
+	step := int64(0)
+	for _, e := range counter.Edges {
+		if k, isC := core.ConstInt(e); isC {
+			start, okStart = k, true
+			continue
+		}
+		if bo, ok := e.(*ssa.BinOp); ok && bo.X == ssa.Value(counter) {
+			if k, isC := core.ConstInt(bo.Y); isC {
+				switch bo.Op {
+				case token.ADD:
+					step = k
+				case token.SUB:
+					step = -k
+				}
+			}
+		}
+	}
+	if !okStart || step != 1 {
+		return ""
+	}
+	// go/ssa's range-over-array/int loops start the phi at -1 and test phi+1 < N
+	var bound int64 = -1
+	plusOne := false
+	g := core.AnyFact(func(f core.Fact) bool {
+		return core.CmpFact(f, func(op token.Token, a, c ssa.Value) bool {
+			k, isC := core.ConstInt(c)
+			if !isC || op != token.LSS {
+				return false
+			}
+			if a == ssa.Value(counter) {
+				bound = k
+				return true
+			}
+			if bo, ok := a.(*ssa.BinOp); ok && bo.Op == token.ADD && bo.X == ssa.Value(counter) {
+				if one, isOne := core.ConstInt(bo.Y); isOne && one == 1 {
+					bound, plusOne = k, true
+					return true
+				}
+			}
+			return false
+		})
+	})
+	if core.InstrGuarded(sl, g, nil) != nil || bound < 0 {
+		return ""
+	}
+	wlo, whi := start, bound-1
+	if plusOne {
+		// go/ssa's range loops: the phi starts one below and the guard tests phi+1 < N, so in the
+		// body phi ranges over [start, N-2] (the linear forms are in terms of the phi itself)
+		whi = bound - 2
+	}
+	if whi < wlo {
+		return ""
+	}
+	at := func(l core.Lin, w int64) int64 { return l.C0 + l.Coef("w")*w }
+	for _, w := range []int64{wlo, whi} {
+		a, b := at(lo, w), at(hi, w)
+		if a < 0 || a > b || b > L {
+			return ""
+		}
+	}
+	return fmt.Sprintf("bounds %s : %s are linear in a loop counter w in [%d, %d]; 0 <= low <= high <= %d at both ends", lo.String(), hi.String(), wlo, whi, L)
 }
